@@ -38,7 +38,9 @@ pub const K_DUP_TX: u8 = 20;
 pub const K_CHILD_OF_PREVIOUS: u8 = 21;
 pub const K_TIME_JUST_ABOVE_MEDIAN: u8 = 22;
 pub const K_TIME_AT_LIMIT: u8 = 23;
-pub const ALL_ITEMS: [u8; 23] = [1, 21, 22, 23, 2, 3, 4, 5, 6, 7, 8, 9, 10, 11, 12, 13, 14, 15, 16, 17, 18, 19, 20];
+pub const K_ANNOUNCED_BAD_BODY: u8 = 24;
+pub const K_ANNOUNCED_GOOD: u8 = 25;
+pub const ALL_ITEMS: [u8; 25] = [1, 21, 22, 23, 25, 24, 2, 3, 4, 5, 6, 7, 8, 9, 10, 11, 12, 13, 14, 15, 16, 17, 18, 19, 20];
 
 pub fn item_name(k: u8) -> &'static str {
     match k {
@@ -65,6 +67,8 @@ pub fn item_name(k: u8) -> &'static str {
         21 => "valid child of the previous item",
         22 => "valid: timestamp = median + 1 (older than its parent)",
         23 => "valid: timestamp = now + 2h exactly",
+        24 => "announced header with another body (wrong merkle root)",
+        25 => "valid: the block of an announced header",
         _ => "?",
     }
 }
@@ -252,6 +256,18 @@ fn build_item(w: &World, k: u8, pos: usize, prev: Option<&bitcoin::Block>, resp_
         K_TIME_AT_LIMIT => {
             let p = hdr_of(&tip)?;
             ok(factory::regtest_block(&p, (w.now + 7200) as u32, vec![simple_cb(w, salt)]))
+        }
+        K_ANNOUNCED_BAD_BODY | K_ANNOUNCED_GOOD => {
+            // the first announced header whose block has not arrived and whose parent is in the tree
+            let a = w.announced.iter().find(|a| {
+                a.block.is_some() && !w.refm.has(&a.hash) && tree.contains(&a.prev)
+            })?;
+            let b = a.block.clone()?;
+            if k == K_ANNOUNCED_GOOD {
+                ok(b)
+            } else {
+                bad(bitcoin::Block { header: b.header, txdata: vec![simple_cb(w, salt)] })
+            }
         }
         K_TIME_FUTURE => {
             let p = hdr_of(&tip)?;
@@ -540,6 +556,7 @@ impl C10Model {
         out.count("responses_fed");
         // which blocks entered the tree?
         let post_tree: HashSet<H32> = w.tree_hashes().into_iter().collect();
+        let mut counted: HashSet<H32> = HashSet::new();
         let entered: Vec<usize> = built
             .iter()
             .enumerate()
@@ -548,7 +565,8 @@ impl C10Model {
                     .as_ref()
                     .map(|b| {
                         let h = b.block_hash().to_byte_array();
-                        post_tree.contains(&h) && !pre_tree.contains(&h)
+                        // the same block offered twice in one reply enters once
+                        post_tree.contains(&h) && !pre_tree.contains(&h) && counted.insert(h)
                     })
                     .unwrap_or(false)
             })
@@ -861,6 +879,10 @@ impl Model for C10Model {
         b.push(nblocks);
         b.push(s.w.ids.len() as u8);
         b.push(matches!(s.last, Some(Applied::Ingest(_))) as u8);
+        b.push(hist.iter().filter(|e| matches!(e, XEv::Base(Ev::Hdr { .. }))).count() as u8);
+        for a in &s.w.announced {
+            b.extend(a.hash);
+        }
         let h = crate::util::sha256(&b);
         Some(u128::from_le_bytes(h[..16].try_into().unwrap()))
     }
@@ -880,9 +902,16 @@ pub fn run(tier: &str) -> i32 {
         vec![(1, 3, 3, 3), (2, 4, 3, 3), (3, 3, 2, 3)]
     };
     for (theta, n, mi, mh) in parts {
+        let mut base = Alphabet::tree(n, &[1]);
+        // announced headers in the base states (so that replies can deliver, or fail to
+        // deliver, the block of an announced header): in the smaller part only
+        if n <= 2 || !quick {
+            base.hdr_lens = vec![1, 2];
+            base.max_hdr_events = 1;
+        }
         let m = C10Model {
             cfg: WorldCfg::regtest(theta),
-            base: Alphabet::tree(n, &[1]),
+            base,
             item_kinds: ALL_ITEMS.to_vec(),
             max_items: mi,
             hdr_kinds: ALL_HDRS.to_vec(),
